@@ -8,9 +8,14 @@ A_TEXT = ('Bounded translation validation of the emitted {what}: fin-protoc is b
           'symbolic message per (program, packet, shape); z3 decides each obligation against a reference wire semantics for every value inside the stated bounds '
           '(string/list lengths, nesting, program family). A sat model is a concrete counterexample message.')
 A_NOTE = ('Trusted: the runtime contract in runtimes/ (the codec runtimes are not in the repository), the five symbolic front-ends and the reference semantics symv/ref.py; '
-          'value domain and bounds are listed in the evidence. Outside the bounds nothing is claimed.')
-B_NOTE = ('Trusted: the go/ssa interpreter symv/gossa.py and its standard-library intrinsics (validated against native runs of the same functions), the hand-written grammar schema '
-          '(checked against the generated parser), environment stubs listed in the evidence. The ANTLR lexer/ATN engine is outside the encoding.')
+          'value domain and bounds are listed in the evidence. Outside the bounds nothing is claimed. The front-ends are validated on every run of C01 against the real thing: '
+          'for a sample of programs (all of them in the thorough tier) the emitted code is compiled and run natively with the reference runtimes (Python, Go, Java: encode and '
+          'decode+re-encode; Rust, C++: decode+re-encode) on a pseudo-random concrete message and must produce the bytes the front-end computed; counterexamples of the Python, Go '
+          'and Java encoders are replayed natively before they are reported (a counterexample the native run does not reproduce is printed as UNCONFIRMED, never as a violation).')
+B_NOTE = ('Trusted: the go/ssa interpreter symv/gossa.py and its standard-library intrinsics, environment stubs listed in the evidence. The interpreter is validated on every run: '
+          'what it computes on its default path (formatter output, visitor diagnostics, generated files) is compared with the real code run natively on the same text '
+          '(ENGINE-VALIDATION line, evidence.coverage.engine_validation); a disagreement is reported as inconclusive, never as a violation. '
+          'The ANTLR lexer/ATN engine is outside the encoding: parse trees are taken from the real parser.')
 CHECKS = {
     'C01': ('translation_validation', A_TEXT.format(what='encoders against the declared wire layout'), A_NOTE, 'symbolic execution of emitted encoders (5 languages) + z3 equivalence with reference layout', '5 C01'),
     'C02': ('translation_validation', A_TEXT.format(what='decoders on canonical encodings plus symbolic trailing bytes (values, read position, re-encoding)'), A_NOTE, 'symbolic execution of emitted decoders + z3', '5 C02'),
